@@ -140,13 +140,31 @@ fn swz(rng: &mut Rng, from: usize, n: usize) -> String {
 /// enumeration constants without an enumerator, prototypes of functions with out parameters, value template parameters,
 /// nested structs / arrays of structs, struct out parameters, methods with out parameters
 pub fn extra_program(rng: &mut Rng) -> String {
-    match rng.below(5) {
+    match rng.below(6) {
+        5 => qualified_matrix_subscript(rng),
         0 => scalar_swizzles(rng),
         1 => enums(rng),
         2 => prototypes(rng),
         3 => value_templates(rng),
         _ => nested_structs(rng),
     }
+}
+
+/// a subscript on a matrix whose type carries a modifier (`const` local, `static const` global): the exporter refuses every
+/// matrix subscript (`UnimplementedMatrixIndex`: `m[i]` is a COLUMN in Metal, a row in the source) — the guard looks at the
+/// type WITHOUT its modifiers; an exporter that lets these through is judged on what it emits (seeded mutant C02-5)
+fn qualified_matrix_subscript(rng: &mut Rng) -> String {
+    let (r, c) = (2 + rng.below(3) as usize, 2 + rng.below(3) as usize);
+    let mt = format!("float{}x{}", r, c);
+    let rowt = format!("float{}", c);
+    let xs: Vec<String> = (0..r * c).map(|i| format!("{}.0f", i + 1)).collect();
+    let i = rng.below(r as u64);
+    let j = rng.below(c as u64);
+    let mut out = format!("static const {} cm = {}({});\n", mt, mt, xs.join(", "));
+    out.push_str(&format!("{} pick({} p, {} v)\n{{\n    const {} m = p;\n    return m[{}] + v;\n}}\n", rowt, mt, rowt, mt, i));
+    out.push_str(&format!("float elem({} p)\n{{\n    const {} m = p;\n    return m[{}][{}] + m[0][{}];\n}}\n", mt, mt, i, j, c - 1));
+    out.push_str(&format!("{} fromconst({} v)\n{{\n    return cm[{}] + v;\n}}\n", rowt, rowt, i));
+    out
 }
 
 fn scalar_swizzles(rng: &mut Rng) -> String {
